@@ -186,6 +186,12 @@ def make_filter_classes():
     class VFilter(Filter):
         """Instrumented test filter; the behaviour is data (self.vbeh), the code below only interprets it."""
 
+        def __init__(self, config, *a, **k):
+            super().__init__(config, *a, **k)
+            w = world()
+            if w.scn.get('lineage'):
+                self.emitter = w.make_emitter(self.config.id)
+
         def _log(self, ev, **kw):
             w = world()
             w.clog.append({'t': w.sim.now, 'node': self.vid, 'inc': self.vinc, 'ev': ev, 'li': len(w.sim.log), **kw})
@@ -353,11 +359,29 @@ class World:
         self.history = []     # all Procs in start order: (id, inc, Proc)
         self.warnings = {'newer': 0, 'older': 0, 'dsnewer': 0}
         self.proc_counts = {}
+        self.lineage_events = {}
+        self.emitters = {}
         self.stop_after = scenario.get('stop_after')       # {'node', 'evs': [...], '<ev>_ms': grace}: end the run some time after a client event
         self.stop_at = None
         self.stop_counts = scenario.get('stop_counts')     # {node: n}: end the run once every listed node has seen n process() calls
         self._installed = False
         self.VFilter = None
+
+    def make_emitter(self, node):
+        """C18: a real OpenFilterLineage whose client only records (eventType, runId); real heartbeat thread."""
+        from openfilter.observability.lineage import OpenFilterLineage
+        inc = self.incarnation[node]
+        events = []
+        self.lineage_events[(node, inc)] = events
+
+        class Cap:
+            def emit(self, event):
+                et = event.eventType
+                events.append((getattr(et, 'value', None) or getattr(et, 'name', None) or str(et), event.run.runId))
+        em = OpenFilterLineage(client=Cap(), filter_name='VFilter')
+        em.interval = self.scn['lineage'].get('interval_s', 10)
+        self.emitters[(node, inc)] = em
+        return em
 
     def node_rng(self, node, inc):
         import random
@@ -506,6 +530,10 @@ class World:
                 sim.shutdown()
             finally:
                 self.uninstall()
+                for em in self.emitters.values():      # let every heartbeat thread finish before anybody reads the event lists
+                    em._stop_event.set()
+                    if em._thread is not None:
+                        em._thread.join(3)
         return self
 
     def _fault(self, f):
